@@ -288,7 +288,7 @@ static typename A::chk reload(H<T>& h, std::string const& text, std::string cons
 
 static std::vector<std::size_t> calls_pattern(long cp, std::size_t n)
 {
-    // cp: 0 -> all 1; 1 -> 1,2,1,2..; 2 -> 2,1,2,1...; 3 -> all 2
+    // cp: 0 -> all 1; 1 -> 1,2,1,2..; 2 -> 2,1,2,1...; 3 -> all 2; 4 -> 1,0,1,0.. ; 5 -> 0,2,0,2.. (iterations without calls)
     std::vector<std::size_t> c;
     for (std::size_t i = 0; i != n; ++i)
     {
@@ -296,6 +296,8 @@ static std::vector<std::size_t> calls_pattern(long cp, std::size_t n)
         if (cp == 1) v = (i % 2) ? 2 : 1;
         if (cp == 2) v = (i % 2) ? 1 : 2;
         if (cp == 3) v = 2;
+        if (cp == 4) v = (i % 2) ? 0 : 1;
+        if (cp == 5) v = (i % 2) ? 2 : 0;
         c.push_back(v);
     }
     return c;
